@@ -266,6 +266,11 @@ def illtyped(tier):
             if src not in seen:
                 seen.add(src)
                 yield src
+    from .gen_spelled import LITERAL_ESCAPES, MISFIT_CALLS
+    for src in LITERAL_ESCAPES + MISFIT_CALLS:
+        if src not in seen:
+            seen.add(src)
+            yield src
     for fi, form in enumerate(SPELLED_FORMS):
         for ki, k in enumerate(("int", "list", "map", "string", "null")):
             if "{0}" not in form and ki:
